@@ -101,6 +101,8 @@ RootOrBranch == Done => \A n \in Blocks : RootDependent(F, CNodes, n) \/ Deps(F,
 QueriesAgree == Done =>
   /\ RootDependentSet(F, CNodes) = {n \in CNodes \ {Aug} : RootDependent(F, CNodes, n)}
   /\ DepsAll(F, CNodes) = UNION {{<<n, d[1], d[2]>> : d \in Deps(F, CNodes, n)} : n \in CNodes \ {Aug}}
+  /\ GoalEdgesFast(F, CNodes, BranchNodes) = GoalEdges(F, CNodes, BranchNodes)
+  /\ GoalRootsFast(F, CNodes, BranchNodes) = GoalRoots(F, CNodes, BranchNodes)
 \* only nodes with at least two successors are sources; labelled edges start at branch nodes
 SourcesBranch == Done => \A t \in F : \/ t[1] = Aug
                                       \/ /\ Cardinality(OutE(g, t[1])) >= 2
